@@ -1,18 +1,20 @@
 ---------------------------- MODULE Trace_Migrate ----------------------------
 (* Judges recorded calls of the real migrations.create_migrations against Migrate!Verdict.          *)
-(* TRACE_FILE: [curn, curv, cur, schemas, cases : <<case>>]  (see Migrate.tla / harness/fn_migrate.py) *)
+(* TRACE_FILE: [curn, curv, cur, schemas, pool, cases : <<case>>]  (see Migrate.tla / harness/fn_migrate.py) *)
 (* OUT_FILE:   <<[i |-> case index, c |-> failed clauses, d |-> tables / positions concerned]>>      *)
 EXTENDS Migrate, Json, IOUtils
 File == JsonDeserialize(IOEnv.TRACE_FILE)
 Env == [curn |-> File.curn, curv |-> File.curv, cur |-> File.cur, schemas |-> File.schemas]
-Cases == File.cases
-N == Len(Cases)
+Pool == File.pool
+\* a recorded case lists its actions as indices into the pool of distinct action records of the file
+CaseAt(k) == LET c == File.cases[k] IN [c EXCEPT !.actions = [j \in 1..Len(c.actions) |-> Pool[c.actions[j]]]]
+N == Len(File.cases)
 VARIABLES i, bad
 Init == i = 0 /\ bad = <<>> /\ (N > 0 \/ JsonSerialize(IOEnv.OUT_FILE, <<>>))
 Next ==
   /\ i < N
   /\ i' = i + 1
-  /\ bad' = LET j == Verdict(Cases[i + 1], Env)
+  /\ bad' = LET j == Verdict(CaseAt(i + 1), Env)
             IN IF j.c = {} THEN bad ELSE Append(bad, [i |-> i + 1, c |-> j.c, d |-> j.d])
   /\ (i' < N \/ JsonSerialize(IOEnv.OUT_FILE, bad'))
 Spec == Init /\ [][Next]_<<i, bad>>
